@@ -26,7 +26,7 @@ ASSUMPTIONS = [
 COMPONENTS = {'real': ['yldprolog.engine evaluate_bounded, query, generated clause code', 'sys.setrecursionlimit / CPython recursion accounting'],
               'stub': ['caller (harness frames of seeded depth)', 'projection functions with raise switches'],
               'oracle': ['self-referential: plain enumeration of the same query under a high limit; sys.getrecursionlimit(); get_value of every (registered) variable']}
-REQUIRED_PROBES = ('nested_bounded_call_from_projection', 'database_at_depth_worlds', 'completeness_checked_after_projection_fault', 'limit_struck_in_search', 'complete_within_limit', 'proj_raise_fired', 'held_by_caller', 'inline_query', 'proj_overflow_or_recursive',
+REQUIRED_PROBES = ('answers_known_by_construction_compared', 'nested_bounded_call_from_projection', 'database_at_depth_worlds', 'completeness_checked_after_projection_fault', 'limit_struck_in_search', 'complete_within_limit', 'proj_raise_fired', 'held_by_caller', 'inline_query', 'proj_overflow_or_recursive',
                    'initial_limit_below_given_limit')
 
 HIGH_LIMIT = 4000      # limit in force for the reference enumeration and the harness itself
@@ -73,7 +73,16 @@ dkeep(L) :- assertz(item(L)).
 dkeep2(L, X) :- len(L, N), assertz(item(N)), X = ok.
 dret([], C) :- retract(colour(C)), assertz(colour(C)).
 dret([_|T], C) :- dret(T, C).
+col3(red).
+col3(green).
+col3(blue).
+al(z, X) :- col3(X).
+al(s(N), X) :- X = Y, al(N, Y).
+''' + ''.join('g%02d.\n' % i for i in range(70)) + ''.join('mg%d :- %s.\n' % (j, ', '.join('g%02d' % i for i in range(14 * j, 14 * j + 14))) for j in range(5)) + '''many(X) :- mg0, mg1, mg2, mg3, mg4, X = done.
 '''
+# (a single clause with 70 goals cannot be loaded: the generated code nests one block per goal and CPython allows 20)
+# queries whose answers (for their LAST argument) are known by construction, independently of any enumeration
+KNOWN = {'many': ['done'], 'al': ['red', 'green', 'blue'], 'fin': ['a', 'b', ('f', ['c']), ('f', ['d'])], 'viacut': ['a', 'z']}
 DYN_QUERIES = ('dl', 'dgrow', 'dkeep', 'dkeep2', 'dret', 'colour', 'dcol')
 _LIB = None
 
@@ -102,6 +111,13 @@ def gen(seed, tier):
             ['mem', [V(0), lst(n, ('a', 'b'))]], ['both', [V(0), V(1)]], ['cutnat', [V(0)]], ['ite', [V(0)]],
             ['nat', [['f', 's', [['f', 's', [V(0)]]]]]], ['undefined_pred', [V(0)]], ['viacut', [V(0)]], ['viacut2', [V(0)]], ['fm', [V(0)]], ['fl', [V(0), lst(n, ('a', 'b'))]], ['fl', [V(0), lst(max(n, 8), ('a', 'c'))]],
         ])
+        if rng.random() < 0.12:
+            # a clause with 70 different goals; a variable aliased through k levels of recursion (answers known by construction)
+            k_ = rng.choice((3, 13, 14, 20))
+            t_ = ['a', 'z']
+            for _ in range(k_):
+                t_ = ['f', 's', [t_]]
+            q = rng.choice([['many', [V(0)]], ['al', [t_, V(0)]], ['al', [t_, V(0)]]])
         if rng.random() < 0.15:
             # the database at depth: dynamic facts looked up, asserted and retracted where the limit strikes
             q = rng.choice([['dl', [lst(n), ['a', 'red']]], ['dl', [lst(n), ['a', 'red']]], ['dl', [lst(n), V(0)]], ['dgrow', [['a', 'z']]], ['dkeep', [lst(max(n, 20))]],
@@ -320,7 +336,7 @@ def _execute(plan):
             return None
         if res is not None:
             want = ref_upto(len(res) + 1)
-            if res != want[:len(res)] or len(res) > len(want):
+            if res[:len(want)] != want[:len(res)] or (len(res) > len(want) and ref['end'] != 'cap'):
                 return 'not-a-prefix', dict(tag, returned=len(res), reference=len(want), reference_end=ref['end'])
             struck = ref['end'] != 'exhausted' or len(res) < len(ref['ans'])
             if struck:
@@ -414,10 +430,34 @@ def _execute(plan):
             return ('answers-changed-after-bounded-calls', {'limit_offset': off, 'fault': None, 'plain_enumeration_now': n, 'plain_enumeration_at_start': len(ref['ans']),
                                                             'note': 'the plain enumeration of the same query no longer gives the answers it gave before the bounded call'})
         return None
+    def known_check(when):
+        """a generous bounded call must return exactly the answers known by construction"""
+        if name not in KNOWN or plan['world'] or not (targs and targs[-1][0] == 'v'):
+            return None
+        got = []
+        sys.setrecursionlimit(abs_l0())
+        try:
+            def call3():
+                base = frame_depth()
+                got.append(yp.evaluate_bounded(yp.query(name, qargs), lambda _: to_python(qargs[-1]), recursion_limit=base + WINDOW[1] + 400))
+            nest(d, call3)
+        except Exception as e:
+            got.append('exc:' + type(e).__name__)
+        finally:
+            sys.setrecursionlimit(HIGH_LIMIT)
+        log.count('answers_known_by_construction_compared')
+        log.ev('known', when, core.jsonable(got[0]) if not isinstance(got[0], str) else got[0])
+        if core.jsonable(got[0]) != core.jsonable(KNOWN[name]):
+            return ('answers-differ-from-known', {'limit_offset': WINDOW[1] + 400, 'fault': None, 'when': when, 'returned': core.jsonable(got[0]), 'known_by_construction': core.jsonable(KNOWN[name])})
+        return None
     side_effects = name in ('dret',)      # (its answers are the same every time, but only if every earlier run completed)
     try:
         log.count('held_by_caller' if held else 'inline_query')
         ref_upto(8)
+        v = known_check('before the window')
+        if v is not None:
+            log.violation(v[0], v[1])
+            return log.result()
         offsets = list(range(2 if name in ('colour', 'dcol') else WINDOW[0], WINDOW[1] + 1)) if plan['limits'] == 'window' else plan['limits']
         for off in offsets:
             log.count('cases')
@@ -451,6 +491,10 @@ def _execute(plan):
             if v is not None:
                 log.violation(v[0], v[1])
                 return log.result()
+        v = known_check('after all faults')
+        if v is not None:
+            log.violation(v[0], v[1])
+            return log.result()
     except (TM.TooDeep,):
         return log.result(discard='cyclic-term')
     return log.result()
